@@ -1,8 +1,474 @@
-//! C20 correspondence streams (stub).
-use crate::util::Opts;
+//! C20: debugger command parsing and disassembly, through the real functions
+//! `debug::command::{parse_command, parse_address}`, `debug::disassembly::disassemble`, `decoder::decode`.
+//!
+//! Strings travel as comma-separated hexadecimal Unicode scalar values (`cp=62,72,65,61,6b`; empty = empty string).
+//!
+//! c20.addr   cp=<token> | r=<none|N>                          parse_address (panic => r=panic)
+//! c20.cmd    cp=<line>  | r=<none|breakset:N|continue|readmem:N|readregs|step|other|panic>   parse_command
+//! c20.disasm addr=<N> bytes=<hex> dl=<l,l,..> trunc=<0|1> | n=<count> a=<a,a,..> l=<l,l,..> b=<hex> (or panic=1)
+//!            bytes = concatenation of instructions built from the real decoder (dl = its lengths; with trunc=1 the
+//!            last instruction is cut short); the outputs are read back from `Display` of each `Instruction`
+//! c20.dec    b0=<N> b1=<N> | len=<l> clk=<c> inv=<0|1> p1=<0|1> p2=<0|1>   decode(&[b0,b1,0x12]); p1/p2 = decode
+//!            panics on the 1-byte / 2-byte prefix of that slice (ties the generated table incl. operand reads)
+//! c20.uni    c=<hex> | ws=<0|1> lo=<hex,..>                   char::is_whitespace / char::to_lowercase of every scalar
+use crate::debug::command::{parse_address, parse_command, Command};
+use crate::debug::disassembly::disassemble;
+use crate::decoder::{decode, ops::Op};
+use crate::util::{hex, Opts, Rng};
 use std::io::Write;
+use std::panic::{catch_unwind, AssertUnwindSafe};
 
-pub fn run(sub: &str, _opts: &Opts, _w: &mut dyn Write) {
-  eprintln!("stream c20.{} not implemented", sub);
-  std::process::exit(2);
+fn cps(s: &str) -> String {
+  let v: Vec<String> = s.chars().map(|c| format!("{:x}", c as u32)).collect();
+  v.join(",")
+}
+
+fn from_cps(s: &str) -> String {
+  if s.is_empty() { return String::new(); }
+  s.split(',').filter_map(|h| u32::from_str_radix(h, 16).ok()).filter_map(char::from_u32).collect()
+}
+
+fn field<'a>(line: &'a str, key: &str) -> Option<&'a str> {
+  let inputs = line.split(" | ").next().unwrap_or("");
+  for tok in inputs.split(' ') {
+    if let Some(v) = tok.strip_prefix(key) {
+      if let Some(v) = v.strip_prefix('=') { return Some(v); }
+    }
+  }
+  None
+}
+
+fn shard(opts: &Opts) -> (u64, u64) {
+  if let Some(s) = opts.get("shard") {
+    let mut it = s.split('/');
+    let i = it.next().and_then(|x| x.parse().ok()).unwrap_or(0);
+    let n = it.next().and_then(|x| x.parse().ok()).unwrap_or(1);
+    (i, if n == 0 { 1 } else { n })
+  } else { (0, 1) }
+}
+
+// ------------------------------------------------------------------------------------------------ addr
+
+fn emit_addr(w: &mut dyn Write, tok: &str) {
+  let r = catch_unwind(|| parse_address(tok));
+  let rs = match r {
+    Ok(Some(v)) => format!("{}", v),
+    Ok(None) => "none".to_string(),
+    Err(_) => "panic".to_string(),
+  };
+  writeln!(w, "c20.addr cp={} | r={}", cps(tok), rs).unwrap();
+}
+
+const MALFORMED: &[&str] = &[
+  "", " ", "\t", "-1", "-0", "65536", "65537", "99999", "100000", "4294967296", "18446744073709551616",
+  "99999999999999999999999999999999", "0x10000", "0x10001", "0xfffff", "0x100000000", "0X10", "0XFF", "0Xff",
+  "12a", "a12", "1 2", " 12 ", "\t12\n", "\u{3000}12\u{2003}", "12\u{200b}", "+5", "+0", "+65535", "+65536", "0x+5",
+  "0x+ffff", "0x+10000", "+0x5", "++5", "+-5", "-+5", "+", "-", "0x", "0x+", "0x-", "0x-1", "x10", "0xx10", "0x0x10",
+  "1_000", "0x1_0", "1e3", "1.0", "1,0", "0b101", "0o17", "#10", "$10", "10h", "0xg", "0xG", "ff", "FF", "0xFFFF",
+  "0xffff", "0xFfFf", "00000000000000000000065535", "0x0000000000000000ffff", "0x00000000000000010000",
+  "\u{663}", "\u{ff11}\u{ff12}", "1\u{ff12}", "\u{0661}\u{0662}", "0x\u{ff21}", "\u{1d7ce}", "\u{212a}", "0\u{78}10",
+  "0\u{445}10", "\u{feff}12", "12\u{feff}", "\u{1c}12", "12\u{85}", "\u{85}12\u{a0}", "12\u{0}", "\u{0}", "0x ff", "0 x10",
+  "١٢٣", "１２３", "0ｘ10", "৪২",
+];
+
+fn run_addr(opts: &Opts, w: &mut dyn Write) {
+  let mut rng = Rng::new(opts.seed ^ 0xadd2);
+  // every 16-bit value in both notations, several spellings
+  for n in 0..=0xffffu32 {
+    emit_addr(w, &format!("{}", n));
+    emit_addr(w, &format!("{:#x}", n));
+    emit_addr(w, &format!("0x{:X}", n));
+    let z = 1 + rng.below(6) as usize;
+    emit_addr(w, &format!("{}{}", "0".repeat(z), n));
+    // hex, leading zeros, each letter in random case
+    let mut h = String::from("0x");
+    h.push_str(&"0".repeat(rng.below(5) as usize));
+    for ch in format!("{:x}", n).chars() {
+      h.push(if rng.chance(1, 2) { ch.to_ascii_uppercase() } else { ch });
+    }
+    emit_addr(w, &h);
+    // 4-digit forms as the debugger prints them
+    emit_addr(w, &format!("{:#06X}", n));
+    if n % 16 == 0 || opts.thorough {
+      emit_addr(w, &format!("+{}", n));
+      emit_addr(w, &format!("0x+{:x}", n));
+      emit_addr(w, &format!(" {}\t", n));
+      emit_addr(w, &format!("-{}", n));
+      emit_addr(w, &format!("0X{:x}", n));
+    }
+  }
+  // just out of range, and far out of range
+  for n in 65536u64..(if opts.thorough { 200_000 } else { 70_000 }) {
+    emit_addr(w, &format!("{}", n));
+    emit_addr(w, &format!("{:#x}", n));
+  }
+  for k in 0..64u32 {
+    let n = 1u128 << (16 + k);
+    emit_addr(w, &format!("{}", n));
+    emit_addr(w, &format!("{:#x}", n));
+    emit_addr(w, &format!("{}", n - 1));
+    emit_addr(w, &format!("{:#X}", n + 1));
+  }
+  for m in MALFORMED { emit_addr(w, m); }
+  // random tokens over an alphabet that makes near-misses likely, plus arbitrary scalars
+  let alpha: Vec<char> = "0123456789abcdefABCDEFxX+- \tgG_.\u{a0}\u{3000}\u{ff10}\u{663}\u{212a}\u{200b}".chars().collect();
+  let count = if opts.thorough { 2_000_000 } else { 100_000 };
+  for _ in 0..count {
+    let len = rng.below(9) as usize;
+    let mut s = String::new();
+    if rng.chance(1, 3) { s.push_str("0x"); }
+    for _ in 0..len {
+      if rng.chance(1, 40) { s.push(random_scalar(&mut rng)); } else { s.push(*rng.pick(&alpha)); }
+    }
+    emit_addr(w, &s);
+  }
+}
+
+fn random_scalar(rng: &mut Rng) -> char {
+  loop {
+    let v = match rng.below(6) {
+      0 => rng.below(0x80) as u32,
+      1 => rng.below(0x800) as u32,
+      2 | 3 => rng.below(0x10000) as u32,
+      4 => 0x2000 + rng.below(0x100) as u32,
+      _ => rng.below(0x110000) as u32,
+    };
+    if let Some(c) = char::from_u32(v) { return c; }
+  }
+}
+
+// ------------------------------------------------------------------------------------------------ cmd
+
+fn cmd_str(r: std::thread::Result<Option<Command>>) -> String {
+  match r {
+    Err(_) => "panic".into(),
+    Ok(None) => "none".into(),
+    Ok(Some(Command::BreakSet(a))) => format!("breakset:{}", a),
+    Ok(Some(Command::Continue)) => "continue".into(),
+    Ok(Some(Command::ReadMemory(a))) => format!("readmem:{}", a),
+    Ok(Some(Command::ReadRegisters)) => "readregs".into(),
+    Ok(Some(Command::Step)) => "step".into(),
+    Ok(Some(_)) => "other".into(),
+  }
+}
+
+fn emit_cmd(w: &mut dyn Write, line: &str) {
+  let r = catch_unwind(|| parse_command(line));
+  writeln!(w, "c20.cmd cp={} | r={}", cps(line), cmd_str(r)).unwrap();
+}
+
+const WORDS: &[&str] = &["break", "c", "continue", "info", "p", "print", "s", "step", "reg", "registers"];
+const NEAR: &[&str] = &["brea", "breakk", "b", "continu", "cont", "cc", "inf", "infos", "pr", "prin", "printf", "ste",
+  "steps", "ss", "regs", "register", "r", "x", "help", "quit", "break;", "step,", "\"step\"", "c.", "info:registers",
+  "breakset", "readregisters", "BreakSet(1)", "0x10", "12"];
+const ASCII_WS: &[char] = &[' ', '\t', '\n', '\u{b}', '\u{c}', '\r'];
+const UNI_WS: &[char] = &['\u{85}', '\u{a0}', '\u{1680}', '\u{2000}', '\u{2001}', '\u{2002}', '\u{2003}', '\u{2004}',
+  '\u{2005}', '\u{2006}', '\u{2007}', '\u{2008}', '\u{2009}', '\u{200a}', '\u{2028}', '\u{2029}', '\u{202f}',
+  '\u{205f}', '\u{3000}'];
+// not White_Space although they look or sound like it
+const FAKE_WS: &[char] = &['\u{200b}', '\u{200c}', '\u{200d}', '\u{2060}', '\u{feff}', '\u{180e}', '\u{1c}', '\u{1d}',
+  '\u{1e}', '\u{1f}', '\u{0}', '\u{7f}', '\u{84}', '\u{86}', '\u{9f}', '\u{ad}', '\u{2800}', '\u{3164}', '\u{1fff}',
+  '\u{200e}', '\u{202e}', '\u{2027}', '\u{202a}', '\u{2fff}', '\u{3001}', '\u{167f}', '\u{1681}'];
+
+fn ws(rng: &mut Rng, min: u64, max: u64, s: &mut String) {
+  let n = min + rng.below(max - min + 1);
+  for _ in 0..n {
+    let c = match rng.below(10) {
+      0..=5 => *rng.pick(ASCII_WS),
+      6..=8 => *rng.pick(UNI_WS),
+      _ => ' ',
+    };
+    s.push(c);
+  }
+}
+
+/// a command word in random letter case; with `confuse`, some letters replaced by Unicode look-alikes / case partners
+fn word(rng: &mut Rng, base: &str, confuse: bool, s: &mut String) {
+  for ch in base.chars() {
+    let c = if rng.chance(1, 2) { ch.to_ascii_uppercase() } else { ch };
+    if confuse && rng.chance(1, 3) {
+      let alt: &[char] = match ch {
+        'k' => &['\u{212a}', '\u{ff4b}', '\u{ff2b}', '\u{43a}', '\u{39a}'],
+        's' => &['\u{17f}', '\u{ff53}', '\u{ff33}', '\u{455}', '\u{405}'],
+        'i' => &['\u{130}', '\u{131}', '\u{ff49}', '\u{456}', '\u{406}', '\u{1e9e}'],
+        'c' => &['\u{441}', '\u{421}', '\u{ff43}', '\u{3f2}', '\u{3f9}'],
+        'e' => &['\u{435}', '\u{415}', '\u{ff45}', '\u{212f}', '\u{c9}'],
+        'p' => &['\u{440}', '\u{420}', '\u{ff50}', '\u{3c1}', '\u{3a1}'],
+        'o' => &['\u{43e}', '\u{41e}', '\u{3bf}', '\u{39f}', '\u{ff4f}'],
+        'a' => &['\u{430}', '\u{410}', '\u{212b}', '\u{c5}', '\u{ff41}'],
+        'r' => &['\u{ff52}', '\u{ff32}', '\u{211b}'],
+        't' => &['\u{ff54}', '\u{ff34}', '\u{3a4}', '\u{fb05}', '\u{fb06}'],
+        'n' => &['\u{ff4e}', '\u{ff2e}', '\u{207f}', '\u{149}'],
+        _ => &['\u{3a3}', '\u{3c2}', '\u{df}', '\u{1f0}', '\u{fb00}', '\u{10400}', '\u{1e921}'],
+      };
+      s.push(*rng.pick(alt));
+    } else {
+      s.push(c);
+    }
+  }
+}
+
+fn addr_token(rng: &mut Rng, s: &mut String) {
+  match rng.below(12) {
+    0..=2 => s.push_str(&format!("{}", rng.u16())),
+    3..=4 => s.push_str(&format!("{:#x}", rng.u16())),
+    5 => s.push_str(&format!("0x{:04X}", rng.u16())),
+    6 => s.push_str(&format!("{}{}", "0".repeat(rng.below(4) as usize), rng.below(70000))),
+    7 => s.push_str(&format!("{:#x}", rng.below(0x12000))),
+    8 => s.push_str(&format!("+{}", rng.u16())),
+    9 => s.push_str((*rng.pick(MALFORMED)).trim_matches(char::is_whitespace)),
+    10 => { s.push_str(&format!("{}", rng.u16())); s.push(*rng.pick(FAKE_WS)); }
+    _ => s.push_str(&format!("0X{:x}", rng.u16())),
+  }
+}
+
+fn garbage(rng: &mut Rng, s: &mut String) {
+  let cap = if rng.chance(1, 50) { 400 } else { 14 };
+  let n = rng.below(cap);
+  for _ in 0..n {
+    match rng.below(12) {
+      0..=3 => s.push((0x20 + rng.below(0x5f) as u8) as char),
+      4 => s.push(*rng.pick(ASCII_WS)),
+      5 => s.push(*rng.pick(UNI_WS)),
+      6 => s.push(*rng.pick(FAKE_WS)),
+      7 => s.push_str(*rng.pick(WORDS)),
+      8 => s.push_str(*rng.pick(NEAR)),
+      _ => s.push(random_scalar(rng)),
+    }
+  }
+}
+
+fn gen_cmd_line(rng: &mut Rng) -> String {
+  let mut s = String::new();
+  let kind = rng.below(20);
+  match kind {
+    // well-formed: ws* WORD (ws+ arg)? ws* (ws garbage)?
+    0..=10 => {
+      ws(rng, 0, 3, &mut s);
+      let base = *rng.pick(&WORDS[..8]);
+      word(rng, base, kind == 10, &mut s);
+      match base {
+        "break" | "p" | "print" => {
+          if !rng.chance(1, 10) { ws(rng, 1, 3, &mut s); addr_token(rng, &mut s); }
+        }
+        "info" => {
+          if !rng.chance(1, 10) {
+            ws(rng, 1, 3, &mut s);
+            if rng.chance(4, 5) { let b = *rng.pick(&WORDS[8..]); let cf = rng.chance(1, 8); word(rng, b, cf, &mut s); }
+            else { s.push_str(*rng.pick(NEAR)); }
+          }
+        }
+        _ => {}
+      }
+      if rng.chance(1, 4) { ws(rng, 1, 2, &mut s); garbage(rng, &mut s); }
+      ws(rng, 0, 3, &mut s);
+    }
+    // a separator that is not whitespace between word and argument / glued to the word
+    11 | 12 => {
+      ws(rng, 0, 2, &mut s);
+      let b = *rng.pick(&WORDS[..8]);
+      word(rng, b, false, &mut s);
+      s.push(*rng.pick(FAKE_WS));
+      if rng.chance(1, 2) { addr_token(rng, &mut s); }
+    }
+    // near misses
+    13 | 14 => {
+      ws(rng, 0, 2, &mut s);
+      s.push_str(*rng.pick(NEAR));
+      if rng.chance(1, 2) { ws(rng, 1, 2, &mut s); addr_token(rng, &mut s); }
+    }
+    // only whitespace / empty
+    15 => { if rng.chance(2, 3) { ws(rng, 0, 6, &mut s); } }
+    // pure garbage
+    _ => garbage(rng, &mut s),
+  }
+  s
+}
+
+fn run_cmd(opts: &Opts, w: &mut dyn Write) {
+  let (si, sn) = shard(opts);
+  let total: u64 = opts.get_usize("lines", if opts.thorough { 10_000_000 } else { 100_000 }) as u64;
+  let mut rng = Rng::new(opts.seed.wrapping_add(0xc0de).wrapping_add(si.wrapping_mul(0x1000003)));
+  if si == 0 {
+    // fixed corpus first: the repository's own test lines, every word in lower/upper case, boundary shapes
+    for l in ["c", " continue  ", "step", "s  ", "p 0xff0f", "print 50", "info registers", "info reg", "", " ", "break",
+              "break 0x10", "BREAK 65535", "break 65536", "break -1", "p", "print", "info", "info x", "info  REG  x",
+              "step step", "c c", "breaK 5", "\u{212a}", "ſtep", "İnfo reg", "info\u{3000}registers", "p\u{a0}7",
+              "step\u{200b}", "\u{feff}step", "break\t0x+5", "break +5", "p 0X10", "p ٣", "print 0x", "print +"] {
+      emit_cmd(w, l);
+    }
+    for wd in WORDS { emit_cmd(w, wd); emit_cmd(w, &wd.to_uppercase()); emit_cmd(w, &format!(" {} 1", wd)); }
+  }
+  let mine = total / sn + if si < total % sn { 1 } else { 0 };
+  for _ in 0..mine {
+    let line = gen_cmd_line(&mut rng);
+    emit_cmd(w, &line);
+  }
+}
+
+// ------------------------------------------------------------------------------------------------ disasm
+
+/// address and bytes of one `Instruction`, read back from its `Display` form
+/// `{:#06X}  ` + `XX ` per byte + `   ` per missing byte up to 4 + text
+fn read_back(text: &str) -> Option<(u32, Vec<u8>)> {
+  let b = text.as_bytes();
+  if b.len() < 20 || &b[0..2] != b"0x" || &b[6..8] != b"  " { return None; }
+  let addr = u32::from_str_radix(std::str::from_utf8(&b[2..6]).ok()?, 16).ok()?;
+  let mut bytes = Vec::new();
+  let mut ended = false;
+  for k in 0..4 {
+    let slot = &b[8 + 3 * k..11 + 3 * k];
+    if slot == b"   " { ended = true; continue; }
+    if ended || slot[2] != b' ' { return None; }
+    let v = u8::from_str_radix(std::str::from_utf8(&slot[0..2]).ok()?, 16).ok()?;
+    bytes.push(v);
+  }
+  Some((addr, bytes))
+}
+
+fn emit_disasm(w: &mut dyn Write, addr: u16, bytes: &[u8], dl: &[usize], trunc: bool) {
+  let dls: Vec<String> = dl.iter().map(|x| x.to_string()).collect();
+  let head = format!("c20.disasm addr={} bytes={} dl={} trunc={}", addr, hex(bytes), dls.join(","), trunc as u8);
+  let r = catch_unwind(AssertUnwindSafe(|| {
+    let out = disassemble(addr, bytes);
+    out.iter().map(|i| i.to_string()).collect::<Vec<String>>()
+  }));
+  match r {
+    Err(_) => writeln!(w, "{} | panic=1", head).unwrap(),
+    Ok(texts) => {
+      let mut a = Vec::new();
+      let mut l = Vec::new();
+      let mut b = Vec::new();
+      let mut bad = 0;
+      for t in &texts {
+        match read_back(t) {
+          Some((ad, by)) => { a.push(ad.to_string()); l.push(by.len().to_string()); b.extend_from_slice(&by); }
+          None => bad += 1,
+        }
+      }
+      writeln!(w, "{} | n={} a={} l={} b={} unreadable={}", head, texts.len(), a.join(","), l.join(","), hex(&b), bad).unwrap();
+    }
+  }
+}
+
+fn gen_instr(rng: &mut Rng, out: &mut Vec<u8>) -> usize {
+  // first byte: uniform, with the prefix, the 3-byte forms, STOP and the invalid bytes boosted
+  let b0 = match rng.below(10) {
+    0 => 0xcb,
+    1 => *rng.pick(&[0x01u8, 0x08, 0x11, 0x21, 0x31, 0xc2, 0xc3, 0xc4, 0xca, 0xcc, 0xcd, 0xd2, 0xd4, 0xda, 0xdc, 0xea, 0xfa]),
+    2 => *rng.pick(&[0x10u8, 0xd3, 0xdb, 0xdd, 0xe3, 0xe4, 0xeb, 0xec, 0xed, 0xf4, 0xfc, 0xfd, 0x76, 0x00, 0xff]),
+    _ => rng.u8(),
+  };
+  // decode on a slice long enough for any form gives the decoder's length for this first byte (and second, after CB)
+  let probe = [b0, rng.u8(), rng.u8(), rng.u8()];
+  let (_, len, _) = decode(&probe);
+  out.extend_from_slice(&probe[..len.min(4)]);
+  len
+}
+
+fn run_disasm(opts: &Opts, w: &mut dyn Write) {
+  let (si, sn) = shard(opts);
+  let total: u64 = opts.get_usize("lists", if opts.thorough { 1_000_000 } else { 10_000 }) as u64;
+  let mut rng = Rng::new(opts.seed.wrapping_add(0xd15a).wrapping_add(si.wrapping_mul(0x1000003)));
+  if si == 0 {
+    emit_disasm(w, 0, &[], &[], false);
+    emit_disasm(w, 0xffff, &[0x00], &[1], false);
+    emit_disasm(w, 0xfffe, &[0x01, 0x34, 0x12, 0xcb, 0x7c, 0x10, 0x00, 0xd3], &[3, 2, 2, 1], false);
+    // every first byte (and every CB second byte) once, alone, at a wrapping address
+    for b0 in 0..=255u8 {
+      let mut v = Vec::new();
+      let probe = [b0, 0xab, 0xcd, 0xef];
+      let (_, len, _) = decode(&probe);
+      v.extend_from_slice(&probe[..len.min(4)]);
+      emit_disasm(w, 0xffff, &v, &[len], false);
+      emit_disasm(w, 0x0000, &[0xcb, b0], &[2], false);
+      // the same cut short by one byte
+      if len > 1 { emit_disasm(w, 0x1234, &v[..len - 1], &[len], true); }
+    }
+    emit_disasm(w, 0x1234, &[0xcb], &[2], true);
+  }
+  let mine = total / sn + if si < total % sn { 1 } else { 0 };
+  for _ in 0..mine {
+    let n = if rng.chance(1, 20) { rng.below(200) } else { rng.below(12) } as usize;
+    let mut bytes = Vec::new();
+    let mut dl = Vec::new();
+    for _ in 0..n { dl.push(gen_instr(&mut rng, &mut bytes)); }
+    let addr = match rng.below(4) {
+      0 => (0x10000 - (bytes.len() as u32 % 0x10000).min(rng.below(8) as u32 + bytes.len() as u32 / 2)) as u16,
+      1 => *rng.pick(&[0u16, 1, 0x3fff, 0x4000, 0x7fff, 0x8000, 0xfffd, 0xfffe, 0xffff]),
+      _ => rng.u16(),
+    };
+    // sometimes cut the last instruction short (outside the property's premise; ties the model's panic)
+    let mut trunc = false;
+    if rng.chance(1, 12) {
+      if let Some(&last) = dl.last() {
+        if last > 1 { let cut = 1 + rng.below(last as u64 - 1) as usize; bytes.truncate(bytes.len() - cut); trunc = true; }
+      }
+    }
+    emit_disasm(w, addr, &bytes, &dl, trunc);
+  }
+}
+
+// ------------------------------------------------------------------------------------------------ dec / uni
+
+fn run_dec(_opts: &Opts, w: &mut dyn Write) {
+  for b0 in 0..=255u8 {
+    for b1 in 0..=255u8 {
+      let (op, len, clk) = decode(&[b0, b1, 0x12]);
+      let inv = matches!(op, Op::Invalid(_)) as u8;
+      let p1 = catch_unwind(|| { let _ = decode(&[b0]); }).is_err() as u8;
+      let p2 = catch_unwind(|| { let _ = decode(&[b0, b1]); }).is_err() as u8;
+      writeln!(w, "c20.dec b0={} b1={} | len={} clk={} inv={} p1={} p2={}", b0, b1, len, clk, inv, p1, p2).unwrap();
+    }
+  }
+}
+
+fn run_uni(_opts: &Opts, w: &mut dyn Write) {
+  for v in 0..=0x10ffffu32 {
+    if let Some(c) = char::from_u32(v) {
+      let lo: Vec<String> = c.to_lowercase().map(|x| format!("{:x}", x as u32)).collect();
+      // the str-level function the parser really calls, on the char alone
+      let ls: String = c.to_string().to_lowercase();
+      let lo2: Vec<String> = ls.chars().map(|x| format!("{:x}", x as u32)).collect();
+      writeln!(w, "c20.uni c={:x} | ws={} lo={} slo={}", v, c.is_whitespace() as u8, lo.join(","), lo2.join(",")).unwrap();
+    }
+  }
+}
+
+// ------------------------------------------------------------------------------------------------ entry
+
+fn replay(sub: &str, line: &str, w: &mut dyn Write) {
+  match sub {
+    "addr" => emit_addr(w, &from_cps(field(line, "cp").unwrap_or(""))),
+    "cmd" => emit_cmd(w, &from_cps(field(line, "cp").unwrap_or(""))),
+    "disasm" => {
+      let addr: u16 = field(line, "addr").and_then(|x| x.parse().ok()).unwrap_or(0);
+      let hx = field(line, "bytes").unwrap_or("");
+      let bytes: Vec<u8> = (0..hx.len() / 2).filter_map(|i| u8::from_str_radix(&hx[2 * i..2 * i + 2], 16).ok()).collect();
+      let dl: Vec<usize> = field(line, "dl").unwrap_or("").split(',').filter_map(|x| x.parse().ok()).collect();
+      let trunc = field(line, "trunc") == Some("1");
+      emit_disasm(w, addr, &bytes, &dl, trunc);
+    }
+    _ => {}
+  }
+}
+
+pub fn run(sub: &str, opts: &Opts, w: &mut dyn Write) {
+  // panics are observations here (catch_unwind); keep stderr quiet
+  std::panic::set_hook(Box::new(|_| {}));
+  if let Some(line) = opts.get("replay-line") {
+    replay(sub, line, w);
+    return;
+  }
+  match sub {
+    "addr" => run_addr(opts, w),
+    "cmd" => run_cmd(opts, w),
+    "disasm" => run_disasm(opts, w),
+    "dec" => run_dec(opts, w),
+    "uni" => run_uni(opts, w),
+    other => {
+      eprintln!("unknown stream c20.{}", other);
+      std::process::exit(2);
+    }
+  }
 }
